@@ -55,7 +55,7 @@ func main() {
 	r := drv.NewRand(cfg.Seed)
 	w := emit.NewWriter(cfg.Out, "C12_spec", 0, cfg.Only)
 	n := cfg.Count(240, 4000)
-	codecCases(w, r, cfg.Count(520, 10000))
+	codecCases(w, r, cfg.Count(520, 10000), !cfg.Quick)
 
 	keyLens := []int{16, 24, 32, 16, 24, 32, 32, 32, 0, 15, 17, 31, 33, 64}
 	for i := 0; i < n; i++ {
@@ -78,8 +78,14 @@ func main() {
 			default:
 				pl = r.IntN(80)
 			}
+			if i == 0 { // beyond 1 KiB (4 KiB in the thorough tier)
+				pl = 1040
+				if !cfg.Quick {
+					pl = 4100
+				}
+			}
 			plain := r.Bytes(pl)
-			if r.Chance(1, 3) { // realistic "id:subject"
+			if i != 0 && r.Chance(1, 3) { // realistic "id:subject"
 				plain = []byte(fmt.Sprintf("%x:%s", r.Bytes(8), "user-"+fmt.Sprint(r.IntN(1000))))
 			}
 			iv := r.Bytes(16)
@@ -131,13 +137,14 @@ func main() {
 				}
 				s = string(b)
 			case 3: // valid ciphertext with a flipped bit
-				ctv, err := crypto.EncryptAES(string(r.Bytes(r.IntN(50))), string(r.Bytes(32)))
-				if err == nil && len(ctv) > 0 {
-					b := []byte(ctv)
-					raw, _ := base64.RawURLEncoding.DecodeString(ctv)
+				var ctv string
+				var err error
+				if drv.Catch(func() { ctv, err = crypto.EncryptAES(string(r.Bytes(r.IntN(50))), string(r.Bytes(32))) }) != "" {
+					err = fmt.Errorf("panic") // seen by the seal cases; here: open the empty string
+				}
+				if raw, derr := base64.RawURLEncoding.DecodeString(ctv); err == nil && derr == nil && len(raw) > 0 {
 					raw[r.IntN(len(raw))] ^= byte(1 << r.IntN(8))
-					b = []byte(base64.RawURLEncoding.EncodeToString(raw))
-					s = string(b)
+					s = base64.RawURLEncoding.EncodeToString(raw)
 				}
 			default: // length ≡ 1 mod 4 and embedded newline
 				s = base64.RawURLEncoding.EncodeToString(r.Bytes(20 + r.IntN(20)))
@@ -162,7 +169,7 @@ func main() {
 		}
 	}
 	err := w.Close(emit.Meta{Property: "C12", Tier: cfg.Tier, Seed: cfg.Seed,
-		Rule: "codec: generated values of the 8 claim/response types (custom keys colliding with registered names, nested actors, nil/empty slices and maps) through json.Marshal/Unmarshal of the real types; valid documents with members replaced by alternative/malformed forms fed to the real decoders (and re-marshalled when accepted); stand-alone Audience/Time/Bool/SpaceDelimitedArray/Locales decoders; the schema read off the struct tags. seal/open cases: random keys (valid and invalid lengths), IVs, plaintexts around block boundaries; arbitrary/tampered strings to DecryptAES. Non-trivial = model path class != 0 (anything but a wrong-key-length seal or a non-object document); distinct = distinct (input hash, path class).",
+		Rule: "codec: generated values of the 8 claim/response types (custom keys colliding with registered names, nested actor chains of depth 0-4 with repeated parties / identical sub-chains / shared maps and shared *ActorClaims objects (acyclic), custom values of library types, nil/empty slices and maps; a quarter marshalled twice; fixed cases beyond 1 KiB / 4 KiB) through json.Marshal/Unmarshal of the real types, every library error or panic being an observed outcome; valid documents with members replaced by alternative/malformed forms fed to the real decoders (and re-marshalled when accepted); stand-alone Audience/Time/Bool/SpaceDelimitedArray/Locales decoders; the schema read off the struct tags. seal/open cases: random keys (valid and invalid lengths), IVs, plaintexts around block boundaries; arbitrary/tampered strings to DecryptAES. Non-trivial = model path class != 0 (anything but a wrong-key-length seal or a non-object document); distinct = distinct (input hash, path class).",
 	})
 	if err != nil {
 		fmt.Fprintln(os.Stderr, err)
